@@ -557,8 +557,7 @@ def _jump_guard(idx, call):
                     fp = field_path(strip_transparent(side)) or ""
                     if "depth" in fp:
                         return "depth bound on " + fp
-            if x.get("k") == "MethodCall" and "enter" in x["method"]:
-                return x["method"] + "()"
+            # (a test of the depth gate's *result* does not count: the guard object has to stay alive in a binding, see _entry_gate)
     return None
 
 
